@@ -961,7 +961,9 @@ impl Meta {
             }
             if s.listing_text() != before {
                 mutated = true;
-                if non_editing {
+                // CONT / RETURN hand control back to the program, which may itself contain a DELETE line
+                let resumes_editing_program = (c == "CONT" || c == "RETURN") && before.iter().any(|l| l.contains("DELETE"));
+                if non_editing && !resumes_editing_program {
                     ctx.violation(
                         "direct-statement-changed-program",
                         &format!("edit:direct-altered:{}", c.split(|ch: char| !ch.is_ascii_alphabetic()).next().unwrap_or("")),
